@@ -26,7 +26,7 @@ type c18case struct {
 
 func runC18(c *core.Ctx) {
 	th := c.Thorough()
-	c.Rule = "Prove: seeds x alphas {empty, every single byte value, ramps of length 1..40 (thorough 130)} against an RFC 9381 reference over math/big (try-and-increment counter histogram in evidence); Verify/decoding: all 640 single-bit flips of honest proofs, s + j*L for every j that fits, Gamma + T for all 8 torsion points and every small-order / non-canonical encoding as Gamma, all 14 small-order and all non-canonical encodings and torsion-shifted honest keys as public key, lengths 0..82; verdict, beta, and decode-iff-canonical judged by the reference; non-trivial = distinct (key, alpha) proved and compared + distinct proofs the reference accepts"
+	c.Rule = "Prove: seeds x alphas {empty, every single byte value, ramps of length 1..40 (thorough 130), and for two seeds every length up to 300 (thorough 1200) and around 2^11..2^13} against an RFC 9381 reference over math/big (try-and-increment counter histogram in evidence); Verify/decoding: all 640 single-bit flips of honest proofs, s + j*L for every j that fits, Gamma + T for all 8 torsion points and every small-order / non-canonical encoding as Gamma, all 14 small-order and all non-canonical encodings and torsion-shifted honest keys as public key, lengths 0..82; verdict, beta, and decode-iff-canonical judged by the reference; non-trivial = distinct (key, alpha) proved and compared + distinct proofs the reference accepts"
 	var nontriv atomic.Int64
 	var seeds [][]byte
 	nStruct, nFixed, maxRamp := 8, 4, 40
@@ -55,11 +55,36 @@ func runC18(c *core.Ctx) {
 		}
 		alphas = append(alphas, a)
 	}
+	// every alpha length up to 300 (thorough 1200) and around powers of two, for the first two seeds only (sweepFrom marks them)
+	sweepFrom := len(alphas)
+	maxSweep := 300
+	if th {
+		maxSweep = 1200
+	}
+	for l := maxRamp + 1; l <= maxSweep; l++ {
+		a := make([]byte, l)
+		for i := range a {
+			a[i] = byte(i*29 + l*3)
+		}
+		alphas = append(alphas, a)
+	}
+	for k := 11; k <= 13; k++ {
+		for _, d := range []int{-35, -34, -33, -3, -2, -1, 0, 1} {
+			a := make([]byte, 1<<uint(k)+d)
+			for i := range a {
+				a[i] = byte(i + k)
+			}
+			alphas = append(alphas, a)
+		}
+	}
 	type pj struct{ si, ai int }
 	var jobs []pj
 	for si := range seeds {
 		for ai := range alphas {
 			if !th && si >= 2 && ai > 64 && ai <= 256 {
+				continue
+			}
+			if ai >= sweepFrom && si >= 2 {
 				continue
 			}
 			jobs = append(jobs, pj{si, ai})
